@@ -1190,3 +1190,5 @@ dtwin('c09-level-table-rebuilt-with-density', 'C09', 'seeded/twins/level-table-r
       why='table-driven forward descent whose table always has self.evolventDensity rows')
 dnoalarm('level-table-rebuilt-with-density-noalarm', '*', 'seeded/twins/level-table-rebuilt-with-configured-density.diff',
          why='the cube bound is undecided for step tables (exit 2), never a violation')
+dtwin('c18-function-number-check-inclusive', '*', 'seeded/twins/function-number-check-inclusive.diff',
+      why='the function number is normalised with an inclusive range: every valid member is constructed as itself')
